@@ -9,7 +9,7 @@
 
 use rosu_pp::{
     mania::{Mania, ManiaGradualDifficulty},
-    taiko::Taiko,
+    taiko::{Taiko, TaikoGradualDifficulty},
     model::{hit_object::HitObjectKind, mode::GameMode},
     Beatmap, Difficulty,
 };
@@ -225,11 +225,33 @@ fn check_taiko(run: &mut Run, id: &str, bytes: &[u8], mods: u32, rate: Option<f6
     if attrs.max_combo as usize != want_combo {
         run.fail("oracle:pipe-taiko-max-combo", "", id, format!("max_combo {} for {hits} hits, take {take:?}", attrs.max_combo), repro.clone());
     }
+    // gradual values: only in the class the C02 theorem covers (>= 3 objects, the first two are
+    // hits, the last is a hit) — the other classes are the recorded taiko gradual findings
+    let regular = take.is_none()
+        && n >= 3
+        && map.hit_objects[0].is_circle()
+        && map.hit_objects[1].is_circle()
+        && map.hit_objects[n - 1].is_circle();
+    let mut gtail = String::new();
+    let mut gflag = "";
+    if regular {
+        if let Ok(Ok(vals)) = guarded(|| TaikoGradualDifficulty::new(build(mods, rate, None), &map).map(|g| g.collect::<Vec<_>>())) {
+            run.count("tpipe:stage:gradual");
+            let steps: Vec<String> = vals.iter().map(|a| format!("{}:{}", show_z(a.stars), a.max_combo)).collect();
+            gtail = format!(" G{}", crate::common::show_long(&steps));
+            gflag = " G";
+            if let Some(last) = vals.last() {
+                if *last != attrs {
+                    run.fail("oracle:pipe-taiko-gradual-last-vs-full", "", id, format!("{last:?} vs {attrs:?}"), repro.clone());
+                }
+            }
+        }
+    }
     run.line(
         id,
-        format!("{head} {sum0} {}", hex(attrs.great_hit_window.to_bits())),
+        format!("{head} {sum0} {}{gflag}", hex(attrs.great_hit_window.to_bits())),
         format!(
-            "R{} D{} C{} T{} M{} S{} X{} V{}",
+            "R{} D{} C{} T{} M{} S{} X{} V{}{gtail}",
             show_z(attrs.rhythm),
             show_z(attrs.reading),
             show_z(attrs.color),
